@@ -257,7 +257,9 @@ def gen_model_spec(rng: random.Random, *, allow_conv: bool = True,
         if i < n_lin - 1:
             layers.append({'t': 'act',
                            'f': rng.choice(['relu', 'tanh', 'gelu'])})
-            if zoo and rng.random() < 0.2:
+            if zoo and rng.random() < 0.2 and feat >= 3:
+                # (LayerNorm over two features maps everything to +-1 and
+                # makes the network arbitrarily ill-conditioned)
                 layers.append({'t': 'ln', 'n': feat})
             if zoo and rng.random() < 0.2:
                 layers.append({'t': 'scale', 'n': feat})
